@@ -152,6 +152,8 @@ pub enum Piece {
     /// a length prefix of the given type byte
     Prefix { ty: u8, len: String },
     Valid(u8),
+    /// one valid command repeated: a deep pipeline arriving in one piece
+    Pipeline { kind: u8, count: u16 },
 }
 
 impl Piece {
@@ -160,6 +162,7 @@ impl Piece {
             Piece::Raw(b) => b.clone(),
             Piece::Nest { count, depth } => format!("*{}\r\n", count).repeat(*depth as usize).into_bytes(),
             Piece::Prefix { ty, len } => format!("{}{}\r\n", *ty as char, len).into_bytes(),
+            Piece::Pipeline { kind, count } => Piece::Valid(*kind).bytes().repeat(*count as usize),
             Piece::Valid(k) => match k % 4 {
                 0 => b"*1\r\n$4\r\nPING\r\n".to_vec(),
                 1 => b"*2\r\n$3\r\nGET\r\n$4\r\nkey1\r\n".to_vec(),
@@ -180,6 +183,7 @@ fn piece() -> impl Strategy<Value = Piece> {
         2 => (prop_oneof![Just("1".to_string()), Just("2".to_string()), Just("1000".to_string())], prop_oneof![3 => 1u32..200, 1 => 200u32..10000, 1 => 10000u32..200000]).prop_map(|(count, depth)| Piece::Nest { count, depth }),
         3 => (prop_oneof![Just(b'*'), Just(b'$')], lens).prop_map(|(ty, len)| Piece::Prefix { ty, len }),
         3 => (0u8..4).prop_map(Piece::Valid),
+        1 => (0u8..4, prop_oneof![2 => 2u16..64, 3 => 64u16..70, 2 => 70u16..600]).prop_map(|(kind, count)| Piece::Pipeline { kind, count }),
     ]
 }
 
@@ -761,6 +765,7 @@ fn describe(input: &Input) -> String {
                 Piece::Prefix { ty, len } => format!("'{}{}\\r\\n'", *ty as char, len),
                 Piece::Raw(b) => format!("raw {:?}", String::from_utf8_lossy(&b[..b.len().min(24)])),
                 Piece::Valid(k) => format!("valid-cmd#{}", k % 4),
+                Piece::Pipeline { kind, count } => format!("valid-cmd#{} x {}", kind % 4, count),
             }).collect::<Vec<_>>())
         }
     }
@@ -863,7 +868,7 @@ pub fn check(input: &Input, obs: &mut Obs) -> Result<(), Fail> {
     }
 }
 
-pub const RULE: &str = "inputs executed in child worker processes (abort/stack overflow/refused allocation = observation): (a) byte streams: raw bytes over a RESP-biased alphabet, hostile length prefixes (*2^31, *2^62, $2^63-1, *-2, *10^9), nesting '*1\\r\\n' up to depth 200000, valid pipelines, truncations; (b) well-formed commands of every family the executor special-cases (UMCTL sub-commands incl. well-formed SETCLUSTER messages whose migration tags and peers carry hostile slot ranges (0-2^64-1, 16383-16384, 9-1, ...), UMFORWARD, UMSYNC, CLUSTER, CONFIG, AUTH, EVAL/EVALSHA numkeys, MGET/MSET/MSETNX/DEL/EXISTS, B*POP timeouts, string commands with compression on) with arguments from {missing, empty, non-UTF-8, 0, -1, 2^62, 2^63-1, 2^64-1, 2^64, long digit strings, keywords, keys, long strings, valid UTF-8 with two-byte characters at every alignment}, before and after metadata is set, 30 % with the slow log switched to record every request and read back at the end; fed through the real decoder and the real Session/ForwardHandler; oracle: process alive, no panic on any thread, peak live memory <= 16 MiB + 4096 x bytes received (a counting allocator refuses larger single requests), every request completes in bounded time (8 s wall, triple-confirmed; 3600 virtual s), a second connection still gets its PING answered; non-trivial = the input reached the executor or carries a hostile length prefix / nesting; distinct = hash of the input";
+pub const RULE: &str = "inputs executed in child worker processes (abort/stack overflow/refused allocation = observation): (a) byte streams: raw bytes over a RESP-biased alphabet, hostile length prefixes (*2^31, *2^62, $2^63-1, *-2, *10^9), nesting '*1\\r\\n' up to depth 200000, valid pipelines up to 600 commands deep, truncations; (b) well-formed commands of every family the executor special-cases (UMCTL sub-commands incl. well-formed SETCLUSTER messages whose migration tags and peers carry hostile slot ranges (0-2^64-1, 16383-16384, 9-1, ...), UMFORWARD, UMSYNC, CLUSTER, CONFIG, AUTH, EVAL/EVALSHA numkeys, MGET/MSET/MSETNX/DEL/EXISTS, B*POP timeouts, string commands with compression on) with arguments from {missing, empty, non-UTF-8, 0, -1, 2^62, 2^63-1, 2^64-1, 2^64, long digit strings, keywords, keys, long strings, valid UTF-8 with two-byte characters at every alignment}, before and after metadata is set, 30 % with the slow log switched to record every request and read back at the end; fed through the real decoder and the real Session/ForwardHandler; oracle: process alive, no panic on any thread, peak live memory <= 16 MiB + 4096 x bytes received (a counting allocator refuses larger single requests), every request completes in bounded time (8 s wall, triple-confirmed; 3600 virtual s), a second connection still gets its PING answered; non-trivial = the input reached the executor or carries a hostile length prefix / nesting; distinct = hash of the input";
 
 pub const RULE_TCP: &str = "[tcp] the same input classes (blocking commands excluded) written in generated fragments (1 B .. 4 KiB) on a real loopback TCP connection (30 %: the client disconnects right after writing, without reading; 20 %: it shuts down its sending direction and keeps reading) accepted by a loop that spawns the real handle_session per connection, in child worker processes; oracle: every complete request that precedes any malformed or incomplete data is answered, or the connection is closed, within 6 s wall (three attempts in fresh worlds before it counts); a PING on a second TCP connection is answered while the first is still open; after the clients disconnect both session tasks end; no panic on any thread, process alive, memory bound as above; non-trivial = at least one reply arrived or the input carries a hostile length prefix / nesting";
 
